@@ -22,7 +22,7 @@ Inductive c16_in :=
 
 Inductive c16_obs :=
 | ObConv (l : list obs)
-| ObSer (r : result json).
+| ObSer (r : sres json).
 
 Definition outcome_eqb {A} (eqb : A -> A -> bool) (a b : outcome A) : bool :=
   match a, b with
@@ -39,20 +39,19 @@ Definition obs_eqb (a b : obs) : bool :=
 Definition c16_obs_eqb (a b : c16_obs) : bool :=
   match a, b with
   | ObConv x, ObConv y => list_eqb obs_eqb x y
-  | ObSer (Ok x), ObSer (Ok y) => json_eqb x y
-  | ObSer Err, ObSer Err => true
+  | ObSer (SOk x), ObSer (SOk y) => json_eqb x y
+  | ObSer SFuel, ObSer SFuel | ObSer SLeak, ObSer SLeak => true
   | _, _ => false
   end.
 
-(* On a heap outside guard_F16a the implementation's outcome is not a function of the heap alone
-   (RecursionError, or an exponential walk cut by the harness, or - when the RecursionError is
-   swallowed inside cattrs' dispatcher - partially converted data): there the comparison only
-   demands that the model reports the failure; the finding is keyed by the guard bit. *)
+(* Where the model's walk exhausts its budget (outside guard_F16a) the implementation's outcome is not
+   a function of the heap alone (RecursionError, or an exponential walk cut by the harness, or - when
+   the RecursionError is swallowed inside cattrs' dispatcher - partially converted data): there the
+   comparison only demands that the model reports that failure; the finding is keyed by the guard bit. *)
 Definition case_eqb (c : c16_in) (m o : c16_obs) : bool :=
-  match c with
-  | InSer h r => if guard_F16a h r then c16_obs_eqb m o
-                 else match m with ObSer Err => true | _ => false end
-  | _ => c16_obs_eqb m o
+  match c, m with
+  | InSer _ _, ObSer SFuel => true
+  | _, _ => c16_obs_eqb m o
   end.
 
 Definition model_obs (c : c16_in) : c16_obs :=
@@ -78,8 +77,8 @@ Definition op_reach_closed (ct : list cls) (o : op) : bool :=
 
 Definition guards (c : c16_in) : list bool :=
   match c with
-  | InConv _ ct ops => [true; forallb (op_reach_closed ct) ops]
-  | InSer h r => [guard_F16a h r]
+  | InConv _ ct ops => [true; true; forallb (op_reach_closed ct) ops]
+  | InSer h r => [guard_F16a h r; guard_F16d h r; true]
   end.
 
 Definition code16 (c : c16_in * c16_obs) : N :=
